@@ -629,7 +629,7 @@ class AsyncLoopContext(LoopContext):
         """
         if self._length is None:
             try:
-                self._length = len(self._iterable)  # type: ignore
+                self._length = self._len_of_iterable()
             except TypeError:
                 return None
 
